@@ -6,10 +6,10 @@
   Proved here: ids (both forms), unsigned / signed numbers, side, time-in-force, peg reference,
   orders (all seven kinds), order updates (all five kinds), transactions, statistics, snapshot
   summaries.
-  `C16_partial`: for the list-carrying encodings — transaction list, match result, order queue,
-  level — the element codecs are proved but the list-level theorem (bracket-aware splitting of the
-  joined elements) is not; those four are tied to the crate by the byte-for-byte correspondence
-  run only.
+  and the four list-carrying encodings: order queue (`C16_queue`), transaction list (`C16_txlist`),
+  level (`C16_level`: price and orders; the aggregates in the text are ignored by the parser) and
+  match result (`C16_mr`: the field loop with its position arithmetic and bracket scanner), each for
+  lists of any length. Nothing of C16 is left to the correspondence run alone.
 -/
 import PLV.Lemmas.TextRecords
 import PLV.Lemmas.TextLists
@@ -552,6 +552,569 @@ theorem C16_txlist (l : List TxRec) (h : ∀ t ∈ l, TxOk t) : parseTxList (sho
         exact ⟨showTx_recChars t', showTx_ne_nil t'⟩)
     rw [if_neg (by simpa using hbody), hsplit]
     exact mapM_show showTx parseTx l (fun t' ht' => C16_tx t' (h t' ht'))
+
+/-! ### levels (price and any number of orders) -/
+
+theorem not_startsWith (t pre rest : Str) (c : Char) (hc : c ∉ pre) (hl : t.length < pre.length) :
+    startsWith (t ++ [c]) (pre ++ rest) = false := by
+  simp only [startsWith]
+  apply decide_eq_false
+  intro h
+  have hm : c ∈ (pre ++ rest).take (t ++ [c]).length := by rw [h]; simp
+  rw [List.take_append_of_le_length (by simp; omega)] at hm
+  exact hc (List.mem_of_mem_take hm)
+
+/-- the first occurrence of a pattern ending in a character that does not occur before it -/
+theorem findSub_unique (tagInit : Str) (c : Char) (a b : Str) (hc : c ∉ a) (hci : c ∉ tagInit) :
+    findSub (tagInit ++ [c]) (a ++ (tagInit ++ c :: b)) = some a.length := by
+  induction a with
+  | nil =>
+    have : startsWith (tagInit ++ [c]) (tagInit ++ c :: b) = true := by
+      have := startsWith_append (tagInit ++ [c]) b
+      simpa using this
+    cases hb : tagInit ++ c :: b with
+    | nil => simp at hb
+    | cons x xs =>
+      rw [hb] at this
+      simp only [List.nil_append, hb, findSub, this, if_true]
+      rfl
+  | cons x a ih =>
+    have hca : c ∉ a := fun h => hc (List.mem_cons_of_mem _ h)
+    have hns : startsWith (tagInit ++ [c]) ((x :: a ++ tagInit) ++ ([c] ++ b)) = false :=
+      not_startsWith tagInit (x :: a ++ tagInit) ([c] ++ b) c
+        (by simp only [List.cons_append, List.mem_cons, List.mem_append, not_or]
+            exact ⟨fun e => hc (by simp [e]), hca, hci⟩) (by simp; omega)
+    have hns' : startsWith (tagInit ++ [c]) (x :: (a ++ (tagInit ++ c :: b))) = false := by simpa using hns
+    simp only [List.cons_append, findSub, hns', Bool.false_eq_true, if_false, ih hca]
+    simp
+
+theorem splitOrders_elem (cur p rest : Str) (hp : RecChars p) :
+    splitOrders 0 cur (p ++ rest) = splitOrders 0 (cur ++ p) rest := by
+  induction p generalizing cur with
+  | nil => simp
+  | cons c p ih =>
+    have hc := hp c (List.mem_cons_self ..)
+    have h1 : c ≠ ',' := by rintro rfl; revert hc; decide
+    have h2 : c ≠ '[' := by rintro rfl; revert hc; decide
+    have h3 : c ≠ ']' := by rintro rfl; revert hc; decide
+    have h4 : c ≠ '(' := by rintro rfl; revert hc; decide
+    have h5 : c ≠ ')' := by rintro rfl; revert hc; decide
+    rw [List.cons_append, splitOrders]
+    simp only [h1, h2, h3, h4, h5, false_and, or_self, if_false]
+    rw [ih _ (fun x hx => hp x (List.mem_cons_of_mem _ hx))]
+    simp
+
+theorem splitOrders_joinSep (ps : List Str) (hne : ps ≠ []) (h : ∀ p ∈ ps, RecChars p) :
+    splitOrders 0 [] (joinSep [','] ps) = ps := by
+  induction ps with
+  | nil => exact absurd rfl hne
+  | cons p rest ih =>
+    have hp := h p (List.mem_cons_self ..)
+    cases rest with
+    | nil =>
+      have := splitOrders_elem [] p [] hp
+      simp only [List.append_nil, List.nil_append] at this
+      simp [joinSep, this, splitOrders]
+    | cons q rest' =>
+      have := splitOrders_elem [] p (',' :: joinSep [','] (q :: rest')) hp
+      simp only [List.nil_append] at this
+      simp only [joinSep, List.append_assoc, List.singleton_append]
+      rw [this, splitOrders]
+      simp (config := {decide := true}) only [if_false, and_self, if_true]
+      rw [ih (by simp) (fun x hx => h x (List.mem_cons_of_mem _ hx))]
+
+
+/-- the header of a printed level, after `PriceLevel:` and before `orders=[` -/
+def hdr (price vis hid cnt : Nat) : Str :=
+  pair (lit "price", showNat price) ++ ';' :: (pair (lit "visible_quantity", showNat vis) ++ ';' ::
+    (pair (lit "hidden_quantity", showNat hid) ++ ';' :: (pair (lit "order_count", showNat cnt) ++ [';'])))
+
+theorem idxOf_pair (k v : Str) (hk : Plain k) : idxOf '=' (pair (k, v)) = some k.length := by
+  unfold pair; exact idxOf_append v (hk.no (by decide))
+
+theorem kvsplit (k v : Str) (hk : Plain k) : kvOf (pair (k, v)) = some (k, v) := by
+  unfold kvOf
+  rw [idxOf_pair k v hk]
+  simp [pair]
+
+theorem pair_ne_nil (k v : Str) : pair (k, v) ≠ [] := by simp [pair]
+
+theorem hdr_parts (price vis hid cnt : Nat) :
+    ((splitOn ';' (hdr price vis hid cnt)).filter (fun p => !p.isEmpty)).filterMap kvOf =
+      [(lit "price", showNat price), (lit "visible_quantity", showNat vis), (lit "hidden_quantity", showNat hid),
+       (lit "order_count", showNat cnt)] := by
+  have k1 : Plain (lit "price") := by plain_tac
+  have k2 : Plain (lit "visible_quantity") := by plain_tac
+  have k3 : Plain (lit "hidden_quantity") := by plain_tac
+  have k4 : Plain (lit "order_count") := by plain_tac
+  have n1 := pair_no_semi (p := (lit "price", showNat price)) k1 (plain_of_id (showNat_idChars _))
+  have n2 := pair_no_semi (p := (lit "visible_quantity", showNat vis)) k2 (plain_of_id (showNat_idChars _))
+  have n3 := pair_no_semi (p := (lit "hidden_quantity", showNat hid)) k3 (plain_of_id (showNat_idChars _))
+  have n4 := pair_no_semi (p := (lit "order_count", showNat cnt)) k4 (plain_of_id (showNat_idChars _))
+  unfold hdr
+  rw [splitOn_append n1, splitOn_append n2, splitOn_append n3, splitOn_append n4]
+  simp only [splitOn, List.filter_cons, List.filter_nil, List.isEmpty_nil, Bool.not_true, Bool.false_eq_true, if_false]
+  have e1 : (pair (lit "price", showNat price)).isEmpty = false := by simp [pair]
+  have e2 : (pair (lit "visible_quantity", showNat vis)).isEmpty = false := by simp [pair]
+  have e3 : (pair (lit "hidden_quantity", showNat hid)).isEmpty = false := by simp [pair]
+  have e4 : (pair (lit "order_count", showNat cnt)).isEmpty = false := by simp [pair]
+  simp only [e1, e2, e3, e4, Bool.not_false, if_true, List.filterMap_cons, List.filterMap_nil, kvsplit _ _ k1, kvsplit _ _ k2,
+    kvsplit _ _ k3, kvsplit _ _ k4]
+
+
+theorem finish_hdr (price vis hid cnt : Nat) (body : Str) (hp : price < W) :
+    parseLevel.finish (hdr price vis hid cnt) (some body) =
+      (if body.isEmpty then .ok (price, []) else
+        let pieces := splitOrders 0 [] body
+        let pieces' := match pieces.reverse with
+          | last :: initRev => if last.isEmpty then initRev.reverse else pieces
+          | [] => pieces
+        match pieces'.mapM (fun p => match parseOrder p with
+            | .ok o => (.ok o : Res Order)
+            | .error _ => .error .parseError) with
+        | .ok l => .ok (price, l)
+        | .error e => .error e) := by
+  unfold parseLevel.finish
+  simp only [hdr_parts]
+  have e := parseU64_showNat hp
+  simp (config := {decide := true}) [List.find?, e]
+  rfl
+
+
+theorem lit_level_pre : lit "PriceLevel:price=" = lit "PriceLevel:" ++ lit "price=" := by decide
+theorem lit_orders_tag : lit ";orders=[" = ';' :: (lit "orders=" ++ ['[']) := by decide
+theorem lit_tag : lit "orders=[" = lit "orders=" ++ ['['] := by decide
+theorem lit_vq : lit ";visible_quantity=" = ';' :: (lit "visible_quantity" ++ ['=']) := by decide
+theorem lit_hq : lit ";hidden_quantity=" = ';' :: (lit "hidden_quantity" ++ ['=']) := by decide
+theorem lit_oc : lit ";order_count=" = ';' :: (lit "order_count" ++ ['=']) := by decide
+theorem lit_pe : lit "price=" = lit "price" ++ ['='] := by decide
+
+/-- the printed level, taken apart -/
+theorem showLevel_eq (price vis hid cnt : Nat) (os : List Order) :
+    showLevel price vis hid cnt os =
+      lit "PriceLevel:" ++ (hdr price vis hid cnt ++ (lit "orders=" ++ '[' :: (joinSep [','] (os.map showOrder) ++ [']']))) := by
+  simp only [showLevel, hdr, pair, lit_level_pre, lit_orders_tag, lit_vq, lit_hq, lit_oc, lit_pe, List.append_assoc,
+    List.cons_append, List.nil_append, List.singleton_append]
+
+theorem hdr_recChars (price vis hid cnt : Nat) : RecChars (hdr price vis hid cnt) := by
+  have semi : RecChars [';'] := fun c hc => by simp at hc; subst hc; decide
+  have pp : ∀ (k : String) (n : Nat), Plain (lit k) → RecChars (pair (lit k, showNat n)) := by
+    intro k n hk
+    have := recChars_kv k (showNat n) hk (plain_of_id (showNat_idChars n))
+    simpa [kv, pair] using this
+  unfold hdr
+  have h1 := pp "price" price (by plain_tac)
+  have h2 := pp "visible_quantity" vis (by plain_tac)
+  have h3 := pp "hidden_quantity" hid (by plain_tac)
+  have h4 := pp "order_count" cnt (by plain_tac)
+  have cons : ∀ (a b : Str), RecChars a → RecChars b → RecChars (a ++ ';' :: b) := by
+    intro a b ha hb
+    have := (ha.append semi).append hb
+    simpa using this
+  exact cons _ _ h1 (cons _ _ h2 (cons _ _ h3 (h4.append semi)))
+
+
+theorem mem_joinSep {c : Char} {sep : Str} {l : List Str} (h : c ∈ joinSep sep l) : c ∈ sep ∨ ∃ x ∈ l, c ∈ x := by
+  induction l with
+  | nil => simp [joinSep] at h
+  | cons x rest ih =>
+    cases rest with
+    | nil => exact Or.inr ⟨x, by simp, by simpa [joinSep] using h⟩
+    | cons y ys =>
+      simp only [joinSep, List.mem_append] at h
+      rcases h with (h | h) | h
+      · exact Or.inr ⟨x, by simp, h⟩
+      · exact Or.inl h
+      · rcases ih h with h' | ⟨z, hz, hc⟩
+        · exact Or.inl h'
+        · exact Or.inr ⟨z, by simp [hz], hc⟩
+
+/-- **levels**: the printed level parses back to its price and its orders, in the order printed
+    (the aggregates in the text are ignored by the parser: they are re-derived, C10) -/
+theorem C16_level (price vis hid cnt : Nat) (os : List Order) (hp : price < W) (h : ∀ o ∈ os, OrderOk o) :
+    parseLevel (showLevel price vis hid cnt os) = .ok (price, os) := by
+  have hbodyRC : RecChars (joinSep [','] (os.map showOrder)) → True := fun _ => trivial
+  rw [showLevel_eq]
+  unfold parseLevel
+  simp only [startsWith_append, Bool.not_true, Bool.false_eq_true, if_false, List.drop_left]
+  -- where the orders section starts
+  have hH := hdr_recChars price vis hid cnt
+  have hfind : findSub (lit "orders=[") (hdr price vis hid cnt ++ (lit "orders=" ++ '[' :: (joinSep [','] (os.map showOrder) ++ [']'])))
+      = some (hdr price vis hid cnt).length := by
+    rw [lit_tag]
+    exact findSub_unique (lit "orders=") '[' _ _ (hH.no (by decide)) (by decide)
+  rw [hfind]
+  simp only [List.drop_left, List.take_left]
+  -- where it ends
+  have hbody : ∀ x ∈ os.map showOrder, RecChars x := by
+    intro x hx; obtain ⟨o', _, rfl⟩ := List.mem_map.1 hx; exact showOrder_recChars o'
+  have hjoin : RecChars (joinSep [','] (os.map showOrder)) ∨ True := Or.inr trivial
+  have hno : ']' ∉ (lit "orders=" ++ '[' :: joinSep [','] (os.map showOrder)) := by
+    intro hm
+    simp only [List.mem_append, List.mem_cons] at hm
+    rcases hm with hm | hm | hm
+    · revert hm; decide
+    · revert hm; decide
+    · rcases mem_joinSep hm with hc | ⟨x, hx, hc⟩
+      · revert hc; decide
+      · exact ((hbody x hx).no (by decide)) hc
+  have hshape : lit "orders=" ++ '[' :: (joinSep [','] (os.map showOrder) ++ [']']) =
+      (lit "orders=" ++ '[' :: joinSep [','] (os.map showOrder)) ++ ']' :: [] := by simp
+  have hidx : idxOf ']' (lit "orders=" ++ '[' :: (joinSep [','] (os.map showOrder) ++ [']'])) =
+      some (8 + (joinSep [','] (os.map showOrder)).length) := by
+    rw [hshape, idxOf_append [] hno]
+    have : (lit "orders=").length = 7 := by decide
+    simp [this]; omega
+  have hlen : (lit "orders=[").length = 8 := by decide
+  have hl7 : (lit "orders=").length = 7 := by decide
+  rw [hidx]
+  simp only [hlen]
+  have hdrop : List.drop (8 + (joinSep [','] (os.map showOrder)).length + 1)
+      (lit "orders=" ++ '[' :: (joinSep [','] (os.map showOrder) ++ [']'])) = [] := by
+    apply List.drop_eq_nil_of_le; simp [hl7]; omega
+  have htake : List.take (8 + (joinSep [','] (os.map showOrder)).length - 8)
+      (List.drop 8 (lit "orders=" ++ '[' :: (joinSep [','] (os.map showOrder) ++ [']']))) = joinSep [','] (os.map showOrder) := by
+    have e8 : List.drop 8 (lit "orders=" ++ '[' :: (joinSep [','] (os.map showOrder) ++ [']'])) =
+        joinSep [','] (os.map showOrder) ++ [']'] := by
+      have : lit "orders=" ++ '[' :: (joinSep [','] (os.map showOrder) ++ [']']) =
+          (lit "orders=" ++ ['[']) ++ (joinSep [','] (os.map showOrder) ++ [']']) := by simp
+      rw [this]
+      have h8 : (lit "orders=" ++ ['[']).length = 8 := by decide
+      rw [← h8, List.drop_left]
+    rw [e8]
+    have : 8 + (joinSep [','] (os.map showOrder)).length - 8 = (joinSep [','] (os.map showOrder)).length := by omega
+    rw [this, List.take_left]
+  rw [hdrop, htake, List.append_nil, finish_hdr _ _ _ _ _ hp]
+  cases hos : os with
+  | nil => simp [joinSep]
+  | cons o rest =>
+    rw [← hos]
+    have hne : os.map showOrder ≠ [] := by simp [hos]
+    have hb : joinSep [','] (os.map showOrder) ≠ [] :=
+      joinSep_ne_nil _ _ hne (by intro x hx; obtain ⟨o', _, rfl⟩ := List.mem_map.1 hx; exact showOrder_ne_nil o')
+    have hsplit := splitOrders_joinSep (os.map showOrder) hne hbody
+    rw [if_neg (by simpa using hb)]
+    simp only [hsplit]
+    -- the last piece is a printed order, hence not empty
+    have hlast : ∀ last initRev, (os.map showOrder).reverse = last :: initRev → last.isEmpty = false := by
+      intro last initRev hr
+      have : last ∈ os.map showOrder := by
+        have : last ∈ (os.map showOrder).reverse := by rw [hr]; simp
+        simpa using this
+      obtain ⟨o', _, rfl⟩ := List.mem_map.1 this
+      simpa using showOrder_ne_nil o'
+    have hm := mapM_show showOrder (fun p => match parseOrder p with | .ok o => (.ok o : Res Order) | .error _ => .error Err.parseError) os
+      (fun o' ho' => by simp only [C16_order o' (h o' ho')])
+    cases hr : (os.map showOrder).reverse with
+    | nil => simp at hr; exact absurd hr (by simp [hos])
+    | cons last initRev =>
+      have := hlast last initRev hr
+      simp only [this, Bool.false_eq_true, if_false, hm]
+
+/-! ### match results (field loop, bracket scanner, two lists) -/
+
+theorem get_at (pre : Str) (c : Char) (rest : Str) : (pre ++ c :: rest)[pre.length]? = some c := by
+  simp
+
+/-- the bracket scanner on a body without brackets stops at the closing bracket -/
+theorem scanClose_body (pre body rest : Str) (hb : ∀ c ∈ body, c ≠ '[' ∧ c ≠ ']') (fuel : Nat) (hf : body.length < fuel) :
+    scanClose (pre ++ body ++ ']' :: rest) pre.length 1 fuel = some (pre.length + body.length) := by
+  induction body generalizing pre fuel with
+  | nil =>
+    obtain ⟨f, rfl⟩ : ∃ f, fuel = f + 1 := ⟨fuel - 1, by simp at hf; omega⟩
+    simp [scanClose]
+  | cons c body ih =>
+    obtain ⟨f, rfl⟩ : ∃ f, fuel = f + 1 := ⟨fuel - 1, by simp at hf; omega⟩
+    have hc := hb c (List.mem_cons_self ..)
+    have := ih (pre ++ [c]) (fun x hx => hb x (List.mem_cons_of_mem _ hx)) f (by simp at hf; omega)
+    simp only [List.append_assoc, List.singleton_append, List.length_append, List.length_cons, List.length_nil,
+      List.cons_append, List.nil_append, Nat.zero_add] at this
+    rw [scanClose]
+    simp only [List.append_assoc, List.cons_append, get_at, hc.1, hc.2, if_false]
+    rw [this]; simp; omega
+
+
+theorem drop_at (pre x : Str) : (pre ++ x).drop pre.length = x := List.drop_left
+
+/-- one simple `name=value;` field consumed by the field loop -/
+theorem mrLoop_field (pre name value rest : Str) (acc : MRFields) (fuel : Nat) (hn : '=' ∉ name) (hv : ';' ∉ value) :
+    ∃ s2 : Str, s2 = pre ++ (name ++ '=' :: (value ++ ';' :: rest)) ∧
+      (idxOf '=' (s2.drop pre.length) = some name.length) ∧
+      ((s2.drop pre.length).take name.length = name) ∧
+      (s2.drop (pre.length + name.length + 1) = value ++ ';' :: rest) ∧
+      (idxOf ';' (s2.drop (pre.length + name.length + 1)) = some value.length) ∧
+      ((s2.drop (pre.length + name.length + 1)).take value.length = value) ∧
+      (pre.length + name.length + 1 + value.length + 1 = (pre ++ (name ++ '=' :: (value ++ [';']))).length) ∧
+      ¬ (pre.length ≥ s2.length) := by
+  refine ⟨_, rfl, ?_, ?_, ?_, ?_, ?_, ?_, ?_⟩
+  · rw [drop_at]; exact idxOf_append _ hn
+  · rw [drop_at]; simp
+  · have : pre ++ (name ++ '=' :: (value ++ ';' :: rest)) = (pre ++ (name ++ ['='])) ++ (value ++ ';' :: rest) := by simp
+    rw [this]
+    have hl : pre.length + name.length + 1 = (pre ++ (name ++ ['='])).length := by simp; omega
+    rw [hl, drop_at]
+  · have : pre ++ (name ++ '=' :: (value ++ ';' :: rest)) = (pre ++ (name ++ ['='])) ++ (value ++ ';' :: rest) := by simp
+    rw [this]
+    have hl : pre.length + name.length + 1 = (pre ++ (name ++ ['='])).length := by simp; omega
+    rw [hl, drop_at]; exact idxOf_append _ hv
+  · have : pre ++ (name ++ '=' :: (value ++ ';' :: rest)) = (pre ++ (name ++ ['='])) ++ (value ++ ';' :: rest) := by simp
+    rw [this]
+    have hl : pre.length + name.length + 1 = (pre ++ (name ++ ['='])).length := by simp; omega
+    rw [hl, drop_at]; simp
+  · simp; omega
+  · simp; omega
+
+
+theorem mrLoop_oid (pre value rest : Str) (acc : MRFields) (fuel : Nat) (hv : ';' ∉ value) :
+    mrLoop (pre ++ (lit "order_id" ++ '=' :: (value ++ ';' :: rest))) pre.length acc (fuel + 1) =
+      mrLoop (pre ++ (lit "order_id" ++ '=' :: (value ++ ';' :: rest)))
+        (pre ++ (lit "order_id" ++ '=' :: (value ++ [';']))).length { acc with orderId := some value } fuel := by
+  obtain ⟨s2, hs2, f1, f2, f3, f4, f5, f6, f7⟩ := mrLoop_field pre (lit "order_id") value rest acc fuel (by decide) hv
+  subst hs2
+  rw [mrLoop]
+  simp only [if_neg f7, f1, f2, f4, f5, ← f6]
+  simp (config := {decide := true}) only [if_true, if_false]
+
+theorem mrLoop_rem (pre value rest : Str) (acc : MRFields) (fuel : Nat) (hv : ';' ∉ value) :
+    mrLoop (pre ++ (lit "remaining_quantity" ++ '=' :: (value ++ ';' :: rest))) pre.length acc (fuel + 1) =
+      mrLoop (pre ++ (lit "remaining_quantity" ++ '=' :: (value ++ ';' :: rest)))
+        (pre ++ (lit "remaining_quantity" ++ '=' :: (value ++ [';']))).length { acc with remaining := some value } fuel := by
+  obtain ⟨s2, hs2, f1, f2, f3, f4, f5, f6, f7⟩ := mrLoop_field pre (lit "remaining_quantity") value rest acc fuel (by decide) hv
+  subst hs2
+  rw [mrLoop]
+  simp only [if_neg f7, f1, f2, f4, f5, ← f6]
+  simp (config := {decide := true}) only [if_true, if_false]
+
+theorem mrLoop_comp (pre value rest : Str) (acc : MRFields) (fuel : Nat) (hv : ';' ∉ value) :
+    mrLoop (pre ++ (lit "is_complete" ++ '=' :: (value ++ ';' :: rest))) pre.length acc (fuel + 1) =
+      mrLoop (pre ++ (lit "is_complete" ++ '=' :: (value ++ ';' :: rest)))
+        (pre ++ (lit "is_complete" ++ '=' :: (value ++ [';']))).length { acc with complete := some value } fuel := by
+  obtain ⟨s2, hs2, f1, f2, f3, f4, f5, f6, f7⟩ := mrLoop_field pre (lit "is_complete") value rest acc fuel (by decide) hv
+  subst hs2
+  rw [mrLoop]
+  simp only [if_neg f7, f1, f2, f4, f5, ← f6]
+  simp (config := {decide := true}) only [if_true, if_false]
+
+theorem lit_txs_len : (lit "Transactions:[").length = 14 := by decide
+theorem lit_trans_len : (lit "transactions").length = 12 := by decide
+theorem lit_filled_len : (lit "filled_order_ids").length = 16 := by decide
+
+/-- the `transactions=Transactions:[…];` field -/
+theorem mrLoop_txs (pre body rest : Str) (acc : MRFields) (fuel : Nat) (hb : ∀ c ∈ body, c ≠ '[' ∧ c ≠ ']') :
+    mrLoop (pre ++ (lit "transactions" ++ '=' :: (lit "Transactions:[" ++ (body ++ ']' :: ';' :: rest)))) pre.length acc (fuel + 1) =
+      mrLoop (pre ++ (lit "transactions" ++ '=' :: (lit "Transactions:[" ++ (body ++ ']' :: ';' :: rest))))
+        (pre ++ (lit "transactions" ++ '=' :: (lit "Transactions:[" ++ (body ++ [']', ';'])))).length
+        { acc with txs := some (lit "Transactions:[" ++ (body ++ [']'])) } fuel := by
+  -- the whole text, the prefix up to the value, and up to the list body
+  let s := pre ++ (lit "transactions" ++ '=' :: (lit "Transactions:[" ++ (body ++ ']' :: ';' :: rest)))
+  have hs1 : s = (pre ++ (lit "transactions" ++ ['='])) ++ (lit "Transactions:[" ++ (body ++ ']' :: ';' :: rest)) := by simp [s]
+  have hs2 : s = (pre ++ (lit "transactions" ++ ['='] ++ lit "Transactions:[")) ++ body ++ ']' :: (';' :: rest) := by simp [s]
+  have hp : pre.length + 12 + 1 = (pre ++ (lit "transactions" ++ ['='])).length := by simp [lit_trans_len]
+  have hp14 : pre.length + 12 + 1 + 14 = (pre ++ (lit "transactions" ++ ['='] ++ lit "Transactions:[")).length := by
+    simp [lit_trans_len, lit_txs_len]
+  have h1 : idxOf '=' (s.drop pre.length) = some 12 := by
+    simp only [s, drop_at]; rw [idxOf_append _ (by decide), lit_trans_len]
+  have h2 : (s.drop pre.length).take 12 = lit "transactions" := by
+    simp only [s, drop_at]; rw [← lit_trans_len, List.take_left]
+  have h3 : s.drop (pre.length + 12 + 1) = lit "Transactions:[" ++ (body ++ ']' :: ';' :: rest) := by
+    rw [hp, hs1, drop_at]
+  have h4 : scanClose s (pre.length + 12 + 1 + 14) 1 (s.length + 1) = some (pre.length + 12 + 1 + 14 + body.length) := by
+    rw [hp14, hs2]
+    exact scanClose_body _ body _ hb _ (by simp; omega)
+  have hlen : s.length = pre.length + 12 + 1 + 14 + body.length + 2 + rest.length := by
+    simp [s, lit_trans_len, lit_txs_len]; omega
+  have h5 : s[pre.length + 12 + 1 + 14 + body.length + 1]? = some ';' := by
+    have : s = (pre ++ (lit "transactions" ++ ['='] ++ lit "Transactions:[") ++ body ++ [']']) ++ ';' :: rest := by simp [s]
+    have hl : pre.length + 12 + 1 + 14 + body.length + 1 = (pre ++ (lit "transactions" ++ ['='] ++ lit "Transactions:[") ++ body ++ [']']).length := by
+      simp [lit_trans_len, lit_txs_len]; omega
+    rw [hl, this]; exact get_at _ _ _
+  have h6 : (s.drop (pre.length + 12 + 1)).take (pre.length + 12 + 1 + 14 + body.length + 1 - (pre.length + 12 + 1)) =
+      lit "Transactions:[" ++ (body ++ [']']) := by
+    rw [h3]
+    have : pre.length + 12 + 1 + 14 + body.length + 1 - (pre.length + 12 + 1) = (lit "Transactions:[" ++ (body ++ [']'])).length := by
+      simp [lit_txs_len]; omega
+    rw [this]
+    have : lit "Transactions:[" ++ (body ++ ']' :: ';' :: rest) = (lit "Transactions:[" ++ (body ++ [']'])) ++ (';' :: rest) := by simp
+    rw [this, List.take_left]
+  have h7 : ¬ (pre.length ≥ s.length) := by omega
+  have h8 : (pre ++ (lit "transactions" ++ '=' :: (lit "Transactions:[" ++ (body ++ [']', ';'])))).length =
+      pre.length + 12 + 1 + 14 + body.length + 1 + 1 := by simp [lit_trans_len, lit_txs_len]; omega
+  show mrLoop s pre.length acc (fuel + 1) = mrLoop s _ _ fuel
+  rw [mrLoop, h8]
+  simp only [if_neg h7, h1, h2, h3, startsWith_append, Bool.not_true, Bool.false_eq_true, if_false, h4, h5, h6]
+  simp (config := {decide := true}) only [if_true, if_false]
+  rw [if_pos (by omega)]
+  rw [h3] at h6
+  rw [h6]
+
+/-- the last field, `filled_order_ids=[…]`, after which the loop ends -/
+theorem mrLoop_filled (pre body : Str) (acc : MRFields) (fuel : Nat) (hb : ∀ c ∈ body, c ≠ '[' ∧ c ≠ ']') :
+    mrLoop (pre ++ (lit "filled_order_ids" ++ '=' :: ('[' :: (body ++ [']'])))) pre.length acc (fuel + 2) =
+      .ok { acc with filled := some ('[' :: (body ++ [']'])) } := by
+  let s := pre ++ (lit "filled_order_ids" ++ '=' :: ('[' :: (body ++ [']'])))
+  have hs1 : s = (pre ++ (lit "filled_order_ids" ++ ['='])) ++ ('[' :: (body ++ [']'])) := by simp [s]
+  have hs2 : s = (pre ++ (lit "filled_order_ids" ++ ['=', '['])) ++ body ++ ']' :: [] := by simp [s]
+  have hp : pre.length + 16 + 1 = (pre ++ (lit "filled_order_ids" ++ ['='])).length := by simp [lit_filled_len]
+  have hp1 : pre.length + 16 + 1 + 1 = (pre ++ (lit "filled_order_ids" ++ ['=', '['])).length := by simp [lit_filled_len]
+  have h1 : idxOf '=' (s.drop pre.length) = some 16 := by
+    simp only [s, drop_at]; rw [idxOf_append _ (by decide), lit_filled_len]
+  have h2 : (s.drop pre.length).take 16 = lit "filled_order_ids" := by
+    simp only [s, drop_at]; rw [← lit_filled_len, List.take_left]
+  have h3 : s.drop (pre.length + 16 + 1) = '[' :: (body ++ [']']) := by rw [hp, hs1, drop_at]
+  have h4 : scanClose s (pre.length + 16 + 1 + 1) 1 (s.length + 1) = some (pre.length + 16 + 1 + 1 + body.length) := by
+    rw [hp1, hs2]
+    exact scanClose_body _ body _ hb _ (by simp; omega)
+  have hlen : s.length = pre.length + 16 + 1 + 1 + body.length + 1 := by simp [s, lit_filled_len]; omega
+  have h6 : ('[' :: (body ++ [']'])).take (pre.length + 16 + 1 + 1 + body.length + 1 - (pre.length + 16 + 1)) = '[' :: (body ++ [']']) := by
+    apply List.take_of_length_le; simp; omega
+  have h7 : ¬ (pre.length ≥ s.length) := by omega
+  show mrLoop s pre.length acc (fuel + 2) = _
+  rw [mrLoop]
+  simp only [if_neg h7, h1, h2, h3]
+  simp (config := {decide := true}) only [if_true, if_false, startsWith, List.take, List.length_cons, List.length_nil]
+  simp only [h4, h6]
+  rw [if_neg (by omega), mrLoop, if_pos (by omega)]
+
+theorem mapM_show_opt {α : Type} (sh : α → Str) (parse : Str → Option α) (l : List α)
+    (h : ∀ x ∈ l, parse (sh x) = some x) : (l.map sh).mapM parse = some l := by
+  induction l with
+  | nil => rfl
+  | cons x rest ih =>
+    have hx := h x (List.mem_cons_self ..)
+    have hr := ih (fun y hy => h y (List.mem_cons_of_mem _ hy))
+    simp only [List.map_cons, List.mapM_cons, hx, hr]
+    rfl
+
+theorem lit_mr0 : lit "MatchResult:order_id=" = lit "MatchResult:" ++ (lit "order_id" ++ ['=']) := by decide
+theorem lit_mr1 : lit ";remaining_quantity=" = ';' :: (lit "remaining_quantity" ++ ['=']) := by decide
+theorem lit_mr2 : lit ";is_complete=" = ';' :: (lit "is_complete" ++ ['=']) := by decide
+theorem lit_mr3 : lit ";transactions=" = ';' :: (lit "transactions" ++ ['=']) := by decide
+theorem lit_mr4 : lit ";filled_order_ids=[" = ';' :: (lit "filled_order_ids" ++ ['=', '[']) := by decide
+
+/-- the printed match result in the nested shape the field loop walks through -/
+theorem showMR_eq (r : MRRec) :
+    showMR r = lit "MatchResult:" ++ (lit "order_id" ++ '=' :: (showId r.orderId ++ ';' ::
+      (lit "remaining_quantity" ++ '=' :: (showNat r.remaining ++ ';' ::
+        (lit "is_complete" ++ '=' :: (showBool r.complete ++ ';' ::
+          (lit "transactions" ++ '=' :: (lit "Transactions:[" ++ (joinSep [','] (r.txs.map showTx) ++ ']' :: ';' ::
+            (lit "filled_order_ids" ++ '=' :: ('[' :: (joinSep [','] (r.filled.map showId) ++ [']'])))))))))))) := by
+  simp only [showMR, showTxList, lit_mr0, lit_mr1, lit_mr2, lit_mr3, lit_mr4, List.append_assoc, List.cons_append,
+    List.nil_append, List.singleton_append]
+
+theorem showId_no (i : Id) (c : Char) (hc : idChar c = false) : c ∉ showId i :=
+  fun hm => by have := showId_chars i c hm; simp [this] at hc
+
+theorem showId_ne_nil (i : Id) : showId i ≠ [] := by
+  intro e
+  have h1 := showUuid_length i.val
+  have h2 := showUlid_length i.val
+  unfold showId at e
+  split at e <;> simp_all
+
+theorem lit_brackets : lit "[]" = ['[', ']'] := by decide
+
+/-- **match results**: any number of transactions and filled ids, both values of the flag -/
+theorem C16_mr (r : MRRec) (h : MROk r) : parseMR (showMR r) = .ok r := by
+  obtain ⟨oid, txs, rem, comp, filled⟩ := r
+  obtain ⟨hid, htx, hrem, hfl⟩ := h
+  simp only at hid htx hrem hfl
+  -- character facts
+  have hID : ';' ∉ showId oid := showId_no oid ';' (by decide)
+  have hREM : ';' ∉ showNat rem := showNat_no rem ';' (by decide)
+  have hB : ';' ∉ showBool comp := by cases comp <;> decide
+  have hTB : ∀ c ∈ joinSep [','] (txs.map showTx), c ≠ '[' ∧ c ≠ ']' := by
+    intro c hc
+    rcases mem_joinSep hc with h1 | ⟨x, hx, hcx⟩
+    · simp at h1; subst h1; decide
+    · obtain ⟨t, _, rfl⟩ := List.mem_map.1 hx
+      have := showTx_recChars t c hcx
+      constructor <;> (rintro rfl; revert this; decide)
+  have hF : ∀ c ∈ joinSep [','] (filled.map showId), c ≠ '[' ∧ c ≠ ']' := by
+    intro c hc
+    rcases mem_joinSep hc with h1 | ⟨x, hx, hcx⟩
+    · simp at h1; subst h1; decide
+    · obtain ⟨i, _, rfl⟩ := List.mem_map.1 hx
+      have := showId_chars i c hcx
+      constructor <;> (rintro rfl; revert this; decide)
+  rw [showMR_eq]
+  unfold parseMR
+  simp only [startsWith_append, Bool.not_true, Bool.false_eq_true, if_false]
+  -- name the nested suffixes
+  obtain ⟨R4, hR4⟩ : ∃ R4, R4 = lit "filled_order_ids" ++ '=' :: ('[' :: (joinSep [','] (filled.map showId) ++ [']'])) := ⟨_, rfl⟩
+  rw [← hR4]
+  obtain ⟨R3, hR3⟩ : ∃ R3, R3 = lit "transactions" ++ '=' :: (lit "Transactions:[" ++ (joinSep [','] (txs.map showTx) ++ ']' :: ';' :: R4)) := ⟨_, rfl⟩
+  rw [← hR3]
+  obtain ⟨R2, hR2⟩ : ∃ R2, R2 = lit "is_complete" ++ '=' :: (showBool comp ++ ';' :: R3) := ⟨_, rfl⟩
+  rw [← hR2]
+  obtain ⟨R1, hR1⟩ : ∃ R1, R1 = lit "remaining_quantity" ++ '=' :: (showNat rem ++ ';' :: R2) := ⟨_, rfl⟩
+  rw [← hR1]
+  have hl0 : (lit "MatchResult:").length = 12 := by decide
+  obtain ⟨k, hk⟩ : ∃ k, (lit "MatchResult:" ++ (lit "order_id" ++ '=' :: (showId oid ++ ';' :: R1))).length + 1 = k + 6 :=
+    ⟨(lit "MatchResult:" ++ (lit "order_id" ++ '=' :: (showId oid ++ ';' :: R1))).length - 5, by simp [hl0]; omega⟩
+  rw [hk, ← hl0]
+  -- field 1: order_id
+  rw [show k + 6 = (k + 5) + 1 from rfl, mrLoop_oid (lit "MatchResult:") (showId oid) R1 ({} : MRFields) (k + 5) hID]
+  have e1 : lit "MatchResult:" ++ (lit "order_id" ++ '=' :: (showId oid ++ ';' :: R1)) =
+      (lit "MatchResult:" ++ (lit "order_id" ++ '=' :: (showId oid ++ [';']))) ++ R1 := by simp
+  rw [e1]
+  generalize hP1 : lit "MatchResult:" ++ (lit "order_id" ++ '=' :: (showId oid ++ [';'])) = P1
+  -- field 2: remaining_quantity
+  rw [hR1, show k + 5 = (k + 4) + 1 from rfl, mrLoop_rem P1 (showNat rem) R2 _ (k + 4) hREM]
+  have e2 : P1 ++ (lit "remaining_quantity" ++ '=' :: (showNat rem ++ ';' :: R2)) =
+      (P1 ++ (lit "remaining_quantity" ++ '=' :: (showNat rem ++ [';']))) ++ R2 := by simp
+  rw [e2]
+  generalize hP2 : P1 ++ (lit "remaining_quantity" ++ '=' :: (showNat rem ++ [';'])) = P2
+  -- field 3: is_complete
+  rw [hR2, show k + 4 = (k + 3) + 1 from rfl, mrLoop_comp P2 (showBool comp) R3 _ (k + 3) hB]
+  have e3 : P2 ++ (lit "is_complete" ++ '=' :: (showBool comp ++ ';' :: R3)) =
+      (P2 ++ (lit "is_complete" ++ '=' :: (showBool comp ++ [';']))) ++ R3 := by simp
+  rw [e3]
+  generalize hP3 : P2 ++ (lit "is_complete" ++ '=' :: (showBool comp ++ [';'])) = P3
+  -- field 4: transactions
+  rw [hR3, show k + 3 = (k + 2) + 1 from rfl, mrLoop_txs P3 (joinSep [','] (txs.map showTx)) R4 _ (k + 2) hTB]
+  have e4 : P3 ++ (lit "transactions" ++ '=' :: (lit "Transactions:[" ++ (joinSep [','] (txs.map showTx) ++ ']' :: ';' :: R4))) =
+      (P3 ++ (lit "transactions" ++ '=' :: (lit "Transactions:[" ++ (joinSep [','] (txs.map showTx) ++ [']', ';'])))) ++ R4 := by simp
+  rw [e4]
+  generalize hP4 : P3 ++ (lit "transactions" ++ '=' :: (lit "Transactions:[" ++ (joinSep [','] (txs.map showTx) ++ [']', ';']))) = P4
+  -- field 5: filled_order_ids, and the loop ends
+  rw [hR4, mrLoop_filled P4 (joinSep [','] (filled.map showId)) _ k hF]
+  dsimp only
+  have etl : lit "Transactions:[" ++ (joinSep [','] (txs.map showTx) ++ [']']) = showTxList txs := by simp [showTxList]
+  have htl := C16_txlist txs htx
+  rw [etl]
+  -- the filled-ids list
+  have hfin : ∀ c : Bool, parseMR.finishMR oid rem c (showTxList txs) ('[' :: (joinSep [','] (filled.map showId) ++ [']'])) =
+      .ok ⟨oid, txs, rem, c, filled⟩ := by
+    intro c
+    unfold parseMR.finishMR
+    simp only [htl]
+    cases hfl' : filled with
+    | nil => simp [joinSep, lit_brackets]
+    | cons i rest =>
+      rw [← hfl']
+      have hne : filled.map showId ≠ [] := by simp [hfl']
+      have hb : joinSep [','] (filled.map showId) ≠ [] :=
+        joinSep_ne_nil _ _ hne (by intro x hx; obtain ⟨j, _, rfl⟩ := List.mem_map.1 hx; exact showId_ne_nil j)
+      have hsplit : splitOn ',' (joinSep [','] (filled.map showId)) = filled.map showId :=
+        splitOn_joinSep ',' _ hne (by
+          intro x hx; obtain ⟨j, _, rfl⟩ := List.mem_map.1 hx; exact showId_no j ',' (by decide))
+      have hmap := mapM_show_opt showId parseId filled (fun j hj => parseId_showId j (hfl j hj))
+      have hnb : ('[' :: (joinSep [','] (filled.map showId) ++ [']'])) ≠ lit "[]" := by
+        rw [lit_brackets]
+        intro e
+        cases hj : joinSep [','] (filled.map showId) with
+        | nil => exact hb hj
+        | cons x xs => rw [hj] at e; simp at e
+      rw [if_neg hnb]
+      have hcontent : (('[' :: (joinSep [','] (filled.map showId) ++ [']'])).drop 1).take
+          (('[' :: (joinSep [','] (filled.map showId) ++ [']'])).length - 2) = joinSep [','] (filled.map showId) := by
+        simp
+      simp only [hcontent]
+      rw [if_neg (by simpa using hb), hsplit, hmap]
+  simp only [parseId_showId oid hid, parseU64_showNat hrem]
+  cases comp
+  · simp (config := {decide := true}) only [showBool, if_false, if_true, hfin]
+  · simp (config := {decide := true}) only [showBool, if_false, if_true, hfin]
 
 /-! non-vacuity: a reserve order with boundary values satisfies the premise -/
 example : OrderOk ⟨⟨true, 2 ^ 128 - 1⟩, W - 1, 0, .buy, W - 1, .gtd (W - 1), .reserve (W - 1) 0 none true⟩ :=
